@@ -14,6 +14,11 @@ CHECKS = {
     'C10': ('Lifecycle', 'TLC exhaustive on Lifecycle.tla (every order of background-step completions vs. triggers from their real sources, <=3 submissions, environment toggles, reset/archive cycles) with Edges/Rest/Active/Rejected/ArchiveReturns and the liveness property Return under FairSpec; every transition of a smaller instance + simulated behaviours executed on the real FSM (real transitions machine, real submit Process steps, real cmd_reset, real farm.dispatch) with held background steps; TLC validates every recorded step incl. the path of states passed through, out-of-turn triggers, and rest after draining', '5.C10'),
     'C11': ('Farm', 'TLC exhaustive on Farm.tla (registrations with matching/stale revision, disconnects, status polls, dispatch ticks, replies, reload and archive cycles; 3-4 worker connections) with Eligible/Silent/Leave/Stay/Fields/FreshLarger/DrawnIff; transitions + simulated behaviours replayed on the real Hand protocol objects, dispatch, notify_all; TLC validates the messages decoded from each fake worker transport against the ground-truth worker table it maintains itself', '5.C11'),
     'C12': ('Lifecycle', 'TLC exhaustive on Lifecycle.tla with the poller split into observe / callback (OnlyWhenAllowed, ExactlyOnce, NotLost, Refused) and the liveness property EventuallyIfIdle; replays on the real FSM with the real poller functions running in gated threads and their deferred callback delivered as a separate event; update_trigger is wrapped to log the farm/scheduler state at the instant it is called; TLC validates each step and the quiescent end state', '5.C12'),
+    'C13': ('DbLock', 'TLC exhaustive on DbLock.tla (3-4 clients; request / poll / release / disconnect by any client at every step) with Mutex, ToldTruth, CrashFree, GrantNext and the liveness properties NoStarve / LockFreed under fairness; EVERY transition of the 3-client instance + simulated 4-client behaviours executed on real comms.Worker protocol objects with one virtual clock per connection and real pickled commands in 1/7-byte chunks, partly through the real blocking client functions; TLC validates lock bit, ownership flags and every status message decoded from the client transports', '5.C13'),
+    'C14': ('Frame', 'TLC exhaustive on Frame.tla (labelled byte streams, transcribed reassembly loop and TwistedWrapper.process, all 32 handshake validity assignments, every chunking as a path); every chunking of short streams on the three real protocol classes, simulated chunkings of handshake streams, and real-length streams at every single / pair of split positions; what reached the application is recorded after every chunk and validated by TLC (prefix, reassembly, gate, fail-closed, coalesced delivery)', '5.C14'),
+    'C16': ('Gate', 'TLC enumerates ~9.8k package descriptors (15 factory-kind subsets x 8 dependency shapes x 49 rule clauses at every applicable position) and checks the transcribed _walk/_verify traversal against Accept(d) = no violation; every descriptor (stratified sample in quick) is materialised on disk and judged by the real tools.compliant._verify (and the CLI for a sample); accepted packages must pass dag.Construct, schedule.build, organize, next_job_batch; TLC validates verdict = Accept(d) on the records', '5.C16'),
+    'C19': ('FrontEnd', 'TLC enumerates 18k (quick) / 400k (thorough) request paths over a tree with two roots, outside files and in/out symlinks, checks the transcribed _static against the declarative jail, and 9.7k endpoint x method x certificate x hook situations read from the real routing table; each is executed on the real fe._static, StaticContent.render_GET, a real twisted Site, DynamicContent.render with recording handlers; TLC validates which marker bytes came back / whether the handler ran', '5.C19'),
+    'C20': ('Moment', 'TLC checks the transcribed _delay against Occ(spec) (Computable, Lands, NotFurther) on 126 specifications x 4384 instants of a 3-year calendar, and the firing model MomentFire (FireTargets, BootFires, BootOnce, Armed, Recurs); the real _delay under an injected clock for every/sampled (spec, instant) pair and the real defer/periodics/complete with the virtual reactor clock for every transition of the firing model are validated by TLC; the fires-once defect of defer/complete is a recorded known finding', '5.C20'),
 }
 
 NOT_YET = {}
@@ -51,6 +56,11 @@ def main():
         'engines': [
             {'name': 'Sched', 'path': 'spec/Sched.tla', 'serves_properties': ['C01', 'C02', 'C03', 'C04', 'C05'], 'kind_free_text': 'TLA+ spec of scheduler+farm core; Sched_MC (exhaustive), Sched_Gen (transition/behaviour export), Sched_Trace (trace validation); harness/sched_h.py drives the real code'},
             {'name': 'Farm', 'path': 'spec/Farm.tla', 'serves_properties': ['C11'], 'kind_free_text': 'TLA+ spec of worker registration/placement/notification; Farm_Gen, Farm_Trace; harness/farm_h.py'},
+            {'name': 'DbLock', 'path': 'spec/DbLock.tla', 'serves_properties': ['C13'], 'kind_free_text': 'TLA+ spec of the shelve database lock protocol (safety + liveness); DbLock_Gen, DbLock_Trace; harness/dblock_h.py over vlib/bridge.py'},
+            {'name': 'Frame', 'path': 'spec/Frame.tla', 'serves_properties': ['C14'], 'kind_free_text': 'TLA+ spec of length-prefixed framing and the legacy handshake wrapper; Frame_MC, Frame_Gen, Frame_Cuts, Frame_Trace; harness/frame_h.py'},
+            {'name': 'Gate', 'path': 'spec/Gate.tla', 'serves_properties': ['C16'], 'kind_free_text': 'TLA+ spec of the compliance gate as a decision procedure over package descriptors; harness/gate_h.py materialises packages on disk'},
+            {'name': 'FrontEnd', 'path': 'spec/FrontEnd.tla', 'serves_properties': ['C19'], 'kind_free_text': 'TLA+ spec of the static file jail and the endpoint access table; harness/frontend_h.py'},
+            {'name': 'Moment', 'path': 'spec/Moment.tla', 'serves_properties': ['C20'], 'kind_free_text': 'TLA+ calendar + time-to-event (Moment) and timer firing (MomentFire); harness/moment_h.py'},
             {'name': 'Lifecycle', 'path': 'spec/Lifecycle.tla', 'serves_properties': ['C10', 'C12'], 'kind_free_text': 'TLA+ spec of the pipeline FSM, submit crossroads and pollers (safety + liveness); Lifecycle_Gen, Lifecycle_Trace; harness/life_h.py (gated poller threads)'},
         ],
         'checks': checks,
